@@ -12,6 +12,7 @@ import (
 var scripts = map[string]func(rn *Runner){
 	"fig8x":    scriptFig8x,
 	"cfgtrunc": scriptCfgTrunc,
+	"snapcfg":  scriptSnapCfg,
 }
 
 func (rn *Runner) el() time.Duration {
@@ -227,6 +228,40 @@ func scriptCfgTrunc(rn *Runner) {
 		rn.cutGroups(map[*Node]bool{F: true})
 		time.Sleep(6 * rn.el())
 		c.Net.Heal()
+		time.Sleep(2 * rn.el())
+	}
+}
+
+// scriptSnapCfg (C10, C11): snapshots are requested while membership changes
+// commit on a busy FSM; then the server crashes and restarts from that snapshot.
+func scriptSnapCfg(rn *Runner) {
+	c := rn.C
+	for round := 0; round < 4; round++ {
+		L := rn.waitLeader(nil, 30)
+		if L == nil {
+			return
+		}
+		time.Sleep(rn.el())
+		if L = rn.waitLeader(nil, 30); L == nil {
+			return
+		}
+		// a spare / non-voter to add or remove
+		tgt := c.Nodes[len(c.Nodes)-1]
+		if tgt == L {
+			tgt = c.Nodes[0]
+		}
+		op := []string{"addnonvoter", "remove", "addvoter", "demote"}[round%4]
+		rn.applyBurst(L, 4+rn.rng.Intn(6), "s")
+		time.Sleep(time.Duration(rn.rng.Intn(20)) * time.Millisecond)
+		rn.bg(func() { c.Snapshot(90, L) })
+		time.Sleep(time.Duration(rn.rng.Intn(5)) * time.Millisecond)
+		rn.bg(func() { c.Membership(91, L, op, tgt, 0, 100*time.Millisecond) })
+		time.Sleep(3 * rn.el())
+		if rn.rng.Intn(3) != 0 {
+			c.Crash(L)
+			time.Sleep(rn.el() / 2)
+			c.Start(L)
+		}
 		time.Sleep(2 * rn.el())
 	}
 }
